@@ -20,6 +20,7 @@ import (
 	"fmt"
 	"io"
 	"reflect"
+	"sort"
 	"strings"
 	"time"
 )
@@ -455,9 +456,12 @@ func (root *Root) formArgs(
 			}
 		}
 	}
-	for k, v := range required {
-		if !v {
-			ea = append(ea, resWarn(field.line, field.col, "%s is required but missing", k))
+	if fd != nil {
+		// In the order of the definition, the order of a map is not stable.
+		for _, a := range fd.args.list {
+			if v, has := required[a.N]; has && !v {
+				ea = append(ea, resWarn(field.line, field.col, "%s is required but missing", a.N))
+			}
 		}
 	}
 	return
@@ -486,7 +490,14 @@ func (root *Root) replaceArgVars(vars map[string]interface{}, v interface{}, at 
 			// Build a new map, the literal is part of the parsed request
 			// which can be evaluated again with other variables.
 			cp := make(map[string]interface{}, len(tv))
-			for k, v := range tv {
+			// By name so the errors come in the same order every time.
+			keys := make([]string, 0, len(tv))
+			for k := range tv {
+				keys = append(keys, k)
+			}
+			sort.Strings(keys)
+			for _, k := range keys {
+				v := tv[k]
 				var vt Type
 				if f := it.fields.get(k); f != nil {
 					vt = f.Type
